@@ -1,7 +1,5 @@
 import PytezosModel.Props.C04
 #print axioms C04.source_shape
-#print axioms C04.consults_false
-#print axioms C04.sourceOk_true
 #print axioms C04.pack_eq_spec
 #print axioms C04.pack_micheline
 #print axioms C04.unpack_pack
